@@ -23,7 +23,7 @@ theorem deathExit_rel0 (r : RunSt) (m : DeathMon) (reg : Reg) (hrel : C05.Rel m 
   have hc : c05 m .deathExit (obsOp .deathExit r).1 = (true, { m with regs := [], frames := [] }) := by
     simp only [c05, hfr, hregs, List.filter_cons, bne_self_eq_false, Bool.false_eq_true, if_false, List.filter_nil]
   rw [hc] at h2
-  exact ⟨_, h2, rfl⟩
+  exact ⟨_, h2, rfl, rfl⟩
 
 theorem noEarly_pend (ps1 since pend : Bytes) (h : NoEarly ps1 (since ++ pend) true) (hlen : ps1.length ≤ pend.length) :
     NoEarly ps1 pend true := by
